@@ -2,6 +2,9 @@ import CookModel.Side.BindingsSpec
 import CookModel.Lemmas.BindingsCombine
 import CookModel.Lemmas.BindingsMerge
 import CookModel.Lemmas.ParsedScaled
+import CookModel.Lemmas.BindingsParsed
+import CookModel.Props.C07
+import CookModel.Props.C11
 /-
   C19  The FFI view mirrors the core recipe and combines amounts faithfully.
 
@@ -156,7 +159,7 @@ theorem C19_combine_perm (ings ings' : List (FIngredient Rat)) (hp : ings.Perm i
     (the same value under every key, of every kind), or panics all the same, for every order in
     which `right` — a map, i.e. distinct keys — is iterated.  (In `combine_ingredients` `right`
     has a single entry, so no order is involved there at all.) -/
-theorem C19_merge_iteration_order {α} [Arith α] (left right right' : GroupedQuantity α)
+theorem C19_merge_iteration_order {α} [Arith α] (left right right' : Ffi.GroupedQuantity α)
     (h : right.Perm right') (hnd : (AList.keys right).Nodup) :
     (mergeGroupedQuantities left right).map (fun g => (fun k => AList.get g k)) =
       (mergeGroupedQuantities left right').map (fun g => (fun k => AList.get g k)) :=
@@ -336,6 +339,360 @@ example : (combineIngredientsSelected exIngs [0, 2, 4, 1]).map (fun m => (Ingred
       IngredientList.value m "pepper".toList ⟨[], .range⟩)) =
     (combineIngredientsSelected exIngs [1, 4, 2, 0]).map (fun m => (IngredientList.value m "salt".toList ⟨"g".toList, .number⟩,
       IngredientList.value m "pepper".toList ⟨[], .range⟩)) := by decide +kernel
+end Ffi
+
+/-! ## bindings coverage (wave 5, notes/audit-C19.md): the rest of the exported surface
+
+  Model: Side/BindingsAisle.lean (`parse_aisle_config`, `AisleConf::category_for`, `into_category`),
+  Side/BindingsEntry.lean (`parse_recipe` as a whole, the `metadata` field / `parse_metadata`);
+  vocabulary: Side/BindingsSurfaceSpec.lean; tied to the code by the driver ops `ffi_aisle`, `ffi_meta`,
+  `ffi_parse` (Driver/FfiEntry.lean, harness/src/props/c19.rs). -/
+
+/-! ### `deref_*` are index lookups; every reference list of a view resolves -/
+
+/-- `deref_ingredient`, `deref_cookware`, `deref_timer` are the index lookup in the view's own table:
+    they return the element at the index, and panic (`unwrap` of `None`) exactly for an index outside it. -/
+theorem C19_deref_is_lookup {α} (v : CooklangRecipe α) (i : Nat) :
+    (∀ x, derefIngredient v i = .ok x ↔ v.ingredients[i]? = some x) ∧
+    (∀ x, derefCookware v i = .ok x ↔ v.cookware[i]? = some x) ∧
+    (∀ x, derefTimer v i = .ok x ↔ v.timers[i]? = some x) ∧
+    (derefIngredient v i = .error (.unwrapNone "deref_ingredient") ↔ v.ingredients.length ≤ i) ∧
+    (derefCookware v i = .error (.unwrapNone "deref_cookware") ↔ v.cookware.length ≤ i) ∧
+    (derefTimer v i = .error (.unwrapNone "deref_timer") ↔ v.timers.length ≤ i) :=
+  ⟨fun x => bsf_getOrPanic_ok_iff _ i _ x, fun x => bsf_getOrPanic_ok_iff _ i _ x,
+   fun x => bsf_getOrPanic_ok_iff _ i _ x, bsf_getOrPanic_error_iff _ i _, bsf_getOrPanic_error_iff _ i _,
+   bsf_getOrPanic_error_iff _ i _⟩
+
+/-- `deref_component` is the same lookup, wrapped in the component kind of the item; a text item is
+    returned as it is. -/
+theorem C19_deref_component_is_lookup {α} (v : CooklangRecipe α) :
+    (∀ i, derefComponent v (.ingredientRef i) = (derefIngredient v i |>.mapError fun _ => Panic.unwrapNone "deref_component").map .ingredient) ∧
+    (∀ i, derefComponent v (.cookwareRef i) = (derefCookware v i |>.mapError fun _ => Panic.unwrapNone "deref_component").map .cookware) ∧
+    (∀ i, derefComponent v (.timerRef i) = (derefTimer v i |>.mapError fun _ => Panic.unwrapNone "deref_component").map .timer) ∧
+    (∀ t, derefComponent v (.text t) = .ok (.text t)) := by
+  refine ⟨fun i => ?_, fun i => ?_, fun i => ?_, fun t => rfl⟩
+  · simp only [derefComponent, derefIngredient, getOrPanic]
+    cases v.ingredients[i]? <;> rfl
+  · simp only [derefComponent, derefCookware, getOrPanic]
+    cases v.cookware[i]? <;> rfl
+  · simp only [derefComponent, derefTimer, getOrPanic]
+    cases v.timers[i]? <;> rfl
+
+/-- Every index in every reference list of the view — the three lists of every section and of every step
+    block — resolves: `deref_ingredient` / `deref_cookware` / `deref_timer` (and `deref_component` of the
+    corresponding item) do not panic and return the image of the core component with that index.
+    (`C19_mirror_resolves` says this of the step ITEMS; a caller that walks `ingredient_refs` instead is
+    covered here.) -/
+theorem C19_refs_resolve {α} [Arith α] (r : ScaledRecipe α) (hfit : FitsU32 r) (hin : IndicesInRange r) :
+    ∀ fsec ∈ (intoSimpleRecipe r).sections,
+      RefsResolve r (intoSimpleRecipe r) fsec.ingredientRefs fsec.cookwareRefs fsec.timerRefs ∧
+      ∀ fs, Block.stepBlock fs ∈ fsec.blocks →
+        RefsResolve r (intoSimpleRecipe r) fs.ingredientRefs fs.cookwareRefs fs.timerRefs := by
+  intro fsec hsec
+  have hstep : ∀ fs, Block.stepBlock fs ∈ fsec.blocks →
+      RefsResolve r (intoSimpleRecipe r) fs.ingredientRefs fs.cookwareRefs fs.timerRefs := by
+    intro fs hfs
+    obtain ⟨h1, h2, h3⟩ := bsf_step_refs r hfit hin fsec hsec fs hfs
+    have hres := items_resolve r hfit hin fsec hsec fs hfs
+    refine ⟨fun i hi => ?_, fun i hi => ?_, fun i hi => ?_⟩
+    · exact hres _ (bsf_mem_ingIndex _ i (h1 ▸ hi))
+    · exact hres _ (bsf_mem_cwIndex _ i (h2 ▸ hi))
+    · exact hres _ (bsf_mem_tmIndex _ i (h3 ▸ hi))
+  refine ⟨?_, hstep⟩
+  obtain ⟨e1, e2, e3⟩ := C19_mirror_section_refs r fsec hsec
+  refine ⟨fun i hi => ?_, fun i hi => ?_, fun i hi => ?_⟩
+  · rw [e1] at hi
+    obtain ⟨b, hb, hib⟩ := List.mem_flatMap.mp hi
+    cases b with
+    | stepBlock fs => exact (hstep fs hb).1 i hib
+    | noteBlock t => simp [Block.ingredientRefs] at hib
+  · rw [e2] at hi
+    obtain ⟨b, hb, hib⟩ := List.mem_flatMap.mp hi
+    cases b with
+    | stepBlock fs => exact (hstep fs hb).2.1 i hib
+    | noteBlock t => simp [Block.cookwareRefs] at hib
+  · rw [e3] at hi
+    obtain ⟨b, hb, hib⟩ := List.mem_flatMap.mp hi
+    cases b with
+    | stepBlock fs => exact (hstep fs hb).2.2 i hib
+    | noteBlock t => simp [Block.timerRefs] at hib
+
+/-- … in particular for every view produced from a parsed recipe (indices in range by
+    `C19_parsed_indices_in_range`): dereferencing is total on everything the view itself hands out. -/
+theorem C19_refs_resolve_parsed {r : ScaledRecipe Rat} (h : ParsedScaled r) (hfit : FitsU32 r) :
+    ∀ fsec ∈ (intoSimpleRecipe r).sections,
+      RefsResolve r (intoSimpleRecipe r) fsec.ingredientRefs fsec.cookwareRefs fsec.timerRefs ∧
+      ∀ fs, Block.stepBlock fs ∈ fsec.blocks →
+        RefsResolve r (intoSimpleRecipe r) fs.ingredientRefs fs.cookwareRefs fs.timerRefs :=
+  C19_refs_resolve r hfit h.indicesInRange
+
+/-! ### `parse_recipe` as a whole: parse, `into_result().unwrap()`, scale, view -/
+
+/-- the validity test of `into_result` is the `PassResult::is_valid` of C07 -/
+theorem C19_pass_valid_is_valid {α} [Arith α] (r : AnalysisResult α) : passValid r = r.isValid := rfl
+
+/-- `parse_recipe` returns a view exactly for the inputs whose pass result is valid (an output and no
+    error diagnostic); for every other input it panics in `into_result().unwrap()` — never anywhere else
+    (no parser panic: C03).  Any parser environment, any converter, any factor. -/
+theorem C19_parse_recipe_ok_iff (env : Env) (cv : Converter Rat) (input : Str) (f : Rat) :
+    ((∃ v, parseRecipeView env cv input f = .ok v) ↔ passValid (parseRecipe (α := Rat) env input) = true) ∧
+    (passValid (parseRecipe (α := Rat) env input) = false →
+      parseRecipeView env cv input f = .error (.unwrapNone "parse_recipe: into_result")) := by
+  refine ⟨⟨fun ⟨v, h⟩ => ?_, fun hv => ?_⟩, fun hv => ?_⟩
+  · obtain ⟨r, hr, _⟩ := bsf_parseRecipeView_ok env cv input f v h
+    exact (bsf_parseScaled_iff env cv input f).mp ⟨r, hr⟩
+  · obtain ⟨r, hr⟩ := (bsf_parseScaled_iff env cv input f).mpr hv
+    exact ⟨intoSimpleRecipe r, by unfold parseRecipeView; rw [hr]; rfl⟩
+  · unfold parseRecipeView
+    rw [bsf_parseScaled_error env cv input f hv]; rfl
+
+/-- The view `parse_recipe` returns IS `into_simple_recipe` of the parsed recipe scaled by the given
+    factor — a `ParsedScaled` recipe —, so all the mirror clauses hold of it: same sections, blocks and
+    step items, same components, every item and every index of every reference list resolves.
+    The scaling-factor argument only enters through `scale`. -/
+theorem C19_parse_recipe_mirrors (env : Env) (cv : Converter Rat) (input : Str) (f : Rat)
+    (v : CooklangRecipe Rat) (h : parseRecipeView env cv input f = .ok v) :
+    ∃ c r, (parseRecipe (α := Rat) env input).output = some c ∧ r = (recipeScale cv c.toRecipe f).1 ∧
+      ParsedScaled r ∧ v = intoSimpleRecipe r ∧
+      (FitsU32 r →
+        Forall₂ SectionMirrors r.sections v.sections ∧
+        (Forall₂ IngredientMirrors r.ingredients v.ingredients ∧
+          Forall₂ CookwareMirrors r.cookware v.cookware ∧ Forall₂ TimerMirrors r.timers v.timers) ∧
+        (∀ fsec ∈ v.sections, ∀ fs, Block.stepBlock fs ∈ fsec.blocks → ∀ fit ∈ fs.items, ItemResolves r v fit) ∧
+        (∀ fsec ∈ v.sections, RefsResolve r v fsec.ingredientRefs fsec.cookwareRefs fsec.timerRefs ∧
+          ∀ fs, Block.stepBlock fs ∈ fsec.blocks → RefsResolve r v fs.ingredientRefs fs.cookwareRefs fs.timerRefs)) := by
+  obtain ⟨r, hr, rfl⟩ := bsf_parseRecipeView_ok env cv input f v h
+  obtain ⟨c, hc, _, hrc⟩ := bsf_parseScaled_ok env cv input f r hr
+  have hp := bsf_parseScaled_parsed env cv input f r hr
+  refine ⟨c, r, hc, hrc, hp, rfl, fun hfit => ?_⟩
+  obtain ⟨m1, m2, m3⟩ := C19_mirror_parsed hp hfit
+  exact ⟨m1, m2, m3, C19_refs_resolve_parsed hp hfit⟩
+
+/-! ### the `metadata` field of the view and `parse_metadata` -/
+
+/-- The view's metadata map (and the result of `parse_metadata`: the same loop over the same map) holds,
+    under a key `k`, the value of the LAST entry of the core map whose key reads as the string `k` and
+    whose value reads as a string (`stringEntries`); entries with a non-string key or value — numbers,
+    booleans, null, sequences, nested maps — are not shown.  The result is a map (every key once). -/
+theorem C19_metadata_lookup (es : List MetaEntry) :
+    (AList.keys (intoMetadata es)).Nodup ∧
+    ∀ k, AList.get (intoMetadata es) k =
+      ((stringEntries es).reverse.find? (fun e => decide (e.1 = k))).map (·.2) := by
+  unfold intoMetadata
+  rw [bsf_intoMetadata_eq]
+  refine ⟨bsf_keys_insertAll_nodup _ [] (by simp [AList.keys]), fun k => ?_⟩
+  rw [bsf_get_insertAll]
+  simp [AList.get]
+
+/-- Mirror law for the metadata: when no two of the shown entries read as the same key (true of every
+    YAML mapping whose string keys are plain scalars: a mapping has no duplicate keys), the view has under
+    `k` the value `v` exactly when the core map has the string entry `k: v`; its keys are exactly the
+    string keys with a string value. -/
+theorem C19_metadata_mirror (es : List MetaEntry) (hnd : ((stringEntries es).map Prod.fst).Nodup) (k v : Str) :
+    (AList.get (intoMetadata es) k = some v ↔ (⟨some k, some v⟩ : MetaEntry) ∈ es) ∧
+    (k ∈ AList.keys (intoMetadata es) ↔ ∃ v', (⟨some k, some v'⟩ : MetaEntry) ∈ es) := by
+  have hmem : ∀ k v, (k, v) ∈ stringEntries es ↔ (⟨some k, some v⟩ : MetaEntry) ∈ es := by
+    intro k v
+    simp only [stringEntries, List.mem_filterMap]
+    constructor
+    · rintro ⟨⟨ek, ev⟩, he, hm⟩
+      cases ek <;> cases ev <;> simp at hm
+      obtain ⟨rfl, rfl⟩ := hm; exact he
+    · intro he; exact ⟨_, he, rfl⟩
+  constructor
+  · rw [(C19_metadata_lookup es).2, ← hmem]
+    constructor
+    · intro h
+      obtain ⟨e, he, hv⟩ := Option.map_eq_some_iff.mp h
+      have h1 := List.mem_of_find?_eq_some he
+      have h2 := List.find?_some he
+      simp only [decide_eq_true_eq] at h2
+      rw [List.mem_reverse] at h1
+      obtain ⟨a, b⟩ := e
+      simp only at h2 hv
+      subst h2 hv; exact h1
+    · intro h
+      have hnd' : ((stringEntries es).reverse.map Prod.fst).Nodup := by
+        rw [List.map_reverse]
+        show List.Pairwise (· ≠ ·) _
+        rw [List.pairwise_reverse]
+        exact List.Pairwise.imp (fun h => Ne.symm h) hnd
+      have := Aisle.find_of_nodup_keys (stringEntries es).reverse k v hnd' (List.mem_reverse.mpr h)
+      have hfun : (fun e : List Char × Str => decide (e.1 = k)) = (fun e => e.1 == k) := by
+        funext e; by_cases hh : e.1 = k <;> simp [hh]
+      rw [hfun, this]; rfl
+  · unfold intoMetadata
+    rw [bsf_intoMetadata_eq, bsf_mem_keys_insertAll]
+    simp only [AList.keys, List.map_nil, List.not_mem_nil, false_or, List.mem_map]
+    constructor
+    · rintro ⟨⟨a, b⟩, he, rfl⟩; exact ⟨b, (hmem _ _).mp he⟩
+    · rintro ⟨v', he⟩; exact ⟨(k, v'), (hmem _ _).mpr he, rfl⟩
+
+/-! ### the aisle wrapper: `parse_aisle_config`, `AisleConf::category_for` -/
+
+/-- `parse_aisle_config` returns a configuration exactly for the files the core parser accepts
+    (`C11_ok_iff` says which these are) and panics (`unwrap`) for every file the core parser rejects; the
+    `it.next().unwrap()` of `into_category` never fires (a parsed ingredient line has a name,
+    `C11_names_trimmed`). -/
+theorem C19_aisle_total (s : Str) :
+    ((∃ v, parseAisleConfig s = .ok v) ↔ ∃ c, Aisle.parse s = .ok c) ∧
+    ((∃ e, Aisle.parse s = .error e) → parseAisleConfig s = .error (.unwrapNone "parse_aisle_config")) := by
+  cases h : Aisle.parse s with
+  | error e =>
+    have he : parseAisleConfig s = .error (.unwrapNone "parse_aisle_config") := by
+      unfold parseAisleConfig; rw [h]
+    refine ⟨⟨?_, ?_⟩, fun _ => he⟩
+    · rintro ⟨v, hv⟩; rw [he] at hv; cases hv
+    · rintro ⟨c, hc⟩; cases hc
+  | ok c =>
+    have hne : ∀ cat ∈ c.categories, ∀ i ∈ cat.ingredients, i.names ≠ [] :=
+      fun cat hc i hi => (C11_names_trimmed s c h cat hc i hi).1
+    have hok : parseAisleConfig s = parseAisleLoop c.categories ⟨[], []⟩ := by
+      unfold parseAisleConfig; rw [h]
+    refine ⟨⟨fun _ => ⟨c, rfl⟩, fun _ => ⟨_, hok.trans (bsf_parseAisleLoop _ _ hne)⟩⟩, ?_⟩
+    rintro ⟨e, he⟩; cases he
+
+/-- The wrapper's categories mirror the core configuration: same category names in order, one
+    ingredient per ingredient line, its first name as `name` and the further names as `aliases`. -/
+theorem C19_aisle_mirror (s : Str) (c : Aisle.Conf) (v : FAisleConf) (h : Aisle.parse s = .ok c)
+    (hv : parseAisleConfig s = .ok v) : Forall₂ AisleCategoryMirrors c.categories v.categories := by
+  have hne : ∀ cat ∈ c.categories, ∀ i ∈ cat.ingredients, i.names ≠ [] :=
+    fun cat hc i hi => (C11_names_trimmed s c h cat hc i hi).1
+  unfold parseAisleConfig at hv
+  rw [h] at hv
+  simp only at hv
+  rw [bsf_parseAisleLoop _ _ hne] at hv
+  cases hv
+  simp only [List.nil_append]
+  refine bsf_forall₂_of_map _ (fun cat hc => ⟨rfl, bsf_forall₂_of_map _ (fun i hi => ⟨?_⟩)⟩)
+  have := hne cat hc i hi
+  obtain ⟨names⟩ := i
+  cases names with
+  | nil => exact absurd rfl this
+  | cons n ns => rfl
+
+/-- `category_for` of the wrapper agrees with the lookup of the core configuration
+    (`ingredients_info().get(name)`, C11) for every parsed file and every name: it answers the category
+    of that lookup, and nothing when that lookup finds nothing. -/
+theorem C19_aisle_category_for (s : Str) (c : Aisle.Conf) (v : FAisleConf) (h : Aisle.parse s = .ok c)
+    (hv : parseAisleConfig s = .ok v) (n : Str) :
+    v.categoryFor n = (Aisle.lookup c n).map (·.category) := by
+  have hne : ∀ cat ∈ c.categories, ∀ i ∈ cat.ingredients, i.names ≠ [] :=
+    fun cat hc i hi => (C11_names_trimmed s c h cat hc i hi).1
+  unfold parseAisleConfig at hv
+  rw [h] at hv
+  exact bsf_categoryFor c hne v hv n
+
+/-- … hence (with `C11_lookup`, `C11_lookup_absent`): every name or alias of the file is answered with
+    the category of its line, every other text with `None`. -/
+theorem C19_aisle_category_for_found (s : Str) (c : Aisle.Conf) (v : FAisleConf) (h : Aisle.parse s = .ok c)
+    (hv : parseAisleConfig s = .ok v) :
+    (∀ cat ∈ c.categories, ∀ i ∈ cat.ingredients, ∀ n ∈ i.names, v.categoryFor n = some cat.name) ∧
+    (∀ n, n ∉ Aisle.allNames c.categories → v.categoryFor n = none) := by
+  constructor
+  · intro cat hc i hi n hn
+    obtain ⟨common, _, hl⟩ := C11_lookup s c h cat i n hc hi hn
+    rw [C19_aisle_category_for s c v h hv, hl]; rfl
+  · intro n hn
+    rw [C19_aisle_category_for s c v h hv, C11_lookup_absent c n hn]; rfl
+
+/-- the same read on the wrapper's own categories: the name and every alias of every ingredient of
+    every category the object shows is answered with that category's name -/
+theorem C19_aisle_category_for_view (s : Str) (c : Aisle.Conf) (v : FAisleConf) (h : Aisle.parse s = .ok c)
+    (hv : parseAisleConfig s = .ok v) :
+    ∀ f ∈ v.categories, ∀ fi ∈ f.ingredients, ∀ n, (n = fi.name ∨ n ∈ fi.aliases) →
+      v.categoryFor n = some f.name := by
+  intro f hf fi hfi n hn
+  obtain ⟨cat, hc, hm⟩ := bsf_forall₂_mem_right (C19_aisle_mirror s c v h hv) f hf
+  obtain ⟨i, hi, hmi⟩ := bsf_forall₂_mem_right hm.ingredients fi hfi
+  rw [hm.name]
+  apply (C19_aisle_category_for_found s c v h hv).1 cat hc i hi n
+  rw [hmi.names]
+  exact List.mem_cons.mpr hn
+
+/-- The reverse cache is a map whose keys are exactly the names and aliases of the file (each once). -/
+theorem C19_aisle_cache_is_map (s : Str) (c : Aisle.Conf) (v : FAisleConf) (h : Aisle.parse s = .ok c)
+    (hv : parseAisleConfig s = .ok v) :
+    (AList.keys v.cache).Nodup ∧ ∀ n, n ∈ AList.keys v.cache ↔ n ∈ Aisle.allNames c.categories := by
+  have hne : ∀ cat ∈ c.categories, ∀ i ∈ cat.ingredients, i.names ≠ [] :=
+    fun cat hc i hi => (C11_names_trimmed s c h cat hc i hi).1
+  unfold parseAisleConfig at hv
+  rw [h] at hv
+  simp only at hv
+  rw [bsf_parseAisleLoop _ _ hne] at hv
+  cases hv
+  refine ⟨bsf_keys_insertAll_nodup _ [] (by simp [AList.keys]), fun n => ?_⟩
+  obtain ⟨cats⟩ := c
+  rw [bsf_mem_keys_insertAll, bsf_cacheEntries_eq _ hne, List.map_map, ← Aisle.infoEntries_keys]
+  simp [AList.keys, Function.comp_def]
+
+/-- History independence: a sequence of `category_for` calls on one object leaves the object as it was
+    and answers every query as a fresh object would — so the answer to a query does not depend on which
+    queries were made before it, how often, or in which order (the cache is filled at construction and
+    never written afterwards). -/
+theorem C19_aisle_history_independent (v : FAisleConf) (qs : List Str) :
+    (v.run qs).1 = v ∧ (v.run qs).2 = qs.map v.categoryFor := by
+  induction qs with
+  | nil => exact ⟨rfl, rfl⟩
+  | cons q rest ih =>
+    simp only [FAisleConf.run, FAisleConf.call, List.map_cons]
+    exact ⟨ih.1, by rw [ih.2]⟩
+
+/-- … stated for two histories: whatever was asked before, the next answer is the same -/
+theorem C19_aisle_answer_after_any_history (v : FAisleConf) (h₁ h₂ : List Str) (q : Str) :
+    ((v.run h₁).1.call q).2 = ((v.run h₂).1.call q).2 := by
+  rw [(C19_aisle_history_independent v h₁).1, (C19_aisle_history_independent v h₂).1]
+
+/-! ### amounts: numbers, fractions, ranges -/
+
+/-- What the view shows for an amount, over exact rationals: a regular number as it is, a fraction
+    `whole num/den` (with the rounding error `err` the core keeps) as `whole + err + num/den` — the
+    value of `Number::value`, recomputed from the parts in this order —, a range end by end, a text as
+    it is; an ingredient's or timer's unit is copied, a cookware amount has no unit.  (The f64 instance
+    of the same definition is what the driver runs against the code, bit for bit.) -/
+theorem C19_value_conversion (w n d : Nat) (err x : Rat) (t u : Str) :
+    extractValue (α := Rat) (.number (.regular x)) = .number x ∧
+    extractValue (α := Rat) (.number (.fraction w n d err)) = .number ((w : Rat) + err + (n : Rat) / (d : Rat)) ∧
+    extractValue (α := Rat) (.range (.regular x) (.fraction w n d err)) =
+      .range x ((w : Rat) + err + (n : Rat) / (d : Rat)) ∧
+    extractValue (α := Rat) (.text t) = .text t ∧
+    extractAmountQ (α := Rat) ⟨.number (.fraction w n d err), some u⟩ =
+      ⟨.number ((w : Rat) + err + (n : Rat) / (d : Rat)), some u⟩ ∧
+    extractAmountV (α := Rat) (.number (.regular x)) = ⟨.number x, none⟩ := by
+  simp [extractValue, extractAmountQ, extractAmountV, Number.value]
+
+/-! ### non-vacuity of the coverage theorems -/
+
+namespace Ffi
+/-- "[dairy]\nmilk|whole milk\nbutter\n[b]\negg" -/
+def exAisleText : Str := "[dairy]\nmilk|whole milk\nbutter\n[b]\negg".toList
+
+example : parseAisleConfig exAisleText = .ok
+    ⟨[⟨"dairy".toList, [⟨"milk".toList, ["whole milk".toList]⟩, ⟨"butter".toList, []⟩]⟩, ⟨"b".toList, [⟨"egg".toList, []⟩]⟩],
+     [("milk".toList, "dairy".toList), ("whole milk".toList, "dairy".toList), ("butter".toList, "dairy".toList),
+      ("egg".toList, "b".toList)]⟩ := by decide +kernel
+example : ((parseAisleConfig exAisleText).map fun v => (v.run ["egg".toList, "zz".toList, "whole milk".toList, "egg".toList]).2) =
+    .ok [some "b".toList, none, some "dairy".toList, some "b".toList] := by decide +kernel
+/-- a rejected file ("x": an ingredient before any category) is a panic of the wrapper -/
+example : parseAisleConfig ['x'] = .error (.unwrapNone "parse_aisle_config") := by decide +kernel
+
+/-- a core map `title: Soup`, `servings: 2` (number), `tags: [a]` (sequence), `1: one` (number key),
+    `!t title: Stew` (tagged key reading as `title`): the view shows the last `title` only -/
+def exMeta : List MetaEntry :=
+  [⟨some "title".toList, some "Soup".toList⟩, ⟨some "servings".toList, none⟩, ⟨some "tags".toList, none⟩,
+   ⟨none, some "one".toList⟩, ⟨some "title".toList, some "Stew".toList⟩, ⟨some "x".toList, some "y".toList⟩]
+example : intoMetadata exMeta = [("title".toList, "Stew".toList), ("x".toList, "y".toList)] := by decide +kernel
+example : ((stringEntries (exMeta.take 4 ++ exMeta.drop 5)).map Prod.fst).Nodup := by decide +kernel
+
+/-- the view of `exRecipe`: its section and step reference lists -/
+example : ((intoSimpleRecipe exRecipe).sections.map fun s => (s.ingredientRefs, s.cookwareRefs, s.timerRefs)) =
+    [([0], [0], [0]), ([1], [], [])] := by decide +kernel
+example : derefIngredient (intoSimpleRecipe exRecipe) 1 = .ok ⟨"salt".toList, some ⟨.range 1 2, none⟩, none⟩ := by
+  decide +kernel
+example : derefTimer (intoSimpleRecipe exRecipe) 1 = .error (.unwrapNone "deref_timer") := by decide +kernel
+/-- `1 1/2 cup` is shown as 3/2 -/
+example : extractAmountQ (α := Rat) ⟨.number (.fraction 1 1 2 0), some "cup".toList⟩ = ⟨.number (3/2), some "cup".toList⟩ := by
+  decide +kernel
 end Ffi
 
 end Cook
